@@ -18,14 +18,23 @@ pub mod c13;
 pub mod c14;
 pub mod c15;
 pub mod c16;
+pub mod c17;
+#[cfg(feature = "mip")]
+pub mod c18;
+pub mod c19;
 
 /// All properties decided by the main `vcheck` binary (C18 lives in `vcheck_mip`).
 pub fn registry() -> Vec<PropDef> {
-    vec![c01::def(), c02::def(), c03::def(), c04::def(), c05::def(), c06::def(), c07::def(), c08::def(), c09::def(), c10::def(), c11::def(), c12::def(), c13::def(), c14::def(), c15::def(), c16::def()]
+    vec![c01::def(), c02::def(), c03::def(), c04::def(), c05::def(), c06::def(), c07::def(), c08::def(), c09::def(), c10::def(), c11::def(), c12::def(), c13::def(), c14::def(), c15::def(), c16::def(), c17::def(), c19::def()]
 }
 
-/// `vcheck serve`: execute operation descriptors sent by the other build profile (C17).
+/// `vcheck serve`: execute histories sent by the other build profile (C17).
 pub fn serve() -> i32 {
-    eprintln!("serve: not built yet");
-    2
+    c17::serve()
+}
+
+/// Properties decided by the `vcheck_mip` binary (needs volute's optim-mip feature / HiGHS).
+#[cfg(feature = "mip")]
+pub fn registry_mip() -> Vec<PropDef> {
+    vec![c18::def()]
 }
